@@ -588,6 +588,7 @@ func init() {
 			{Backing: "map", MinMergePct: 100, CachePersisted: true, MergeOp: true},
 			{Backing: "map", MinMergePct: 100, MaxDirtyOps: 1, MergeOp: true},
 			{Backing: "map", MinMergePct: 0.01, CachePersisted: true, MaxDirtyOps: 1, DeferredSort: true, MergeOp: true},
+			{Backing: "map", MinMergePct: 0.01, NoLLInit: true, MergeOp: true},
 		}
 		sp := &G1Spec{Prop: "C13", Alpha: c08Alpha, Configs: cfgs,
 			Steps: []string{"M", "MA", "Pb", "Pe", "Pf"}, Devs: []string{"m1", "p1"},
